@@ -329,6 +329,12 @@ func (i *Interpreter) eval(expr ast.Expr, env *environment.Environment, isRepl b
 		return value, &ControlFlowSignal{Type: ControlFlowNone, LineNumber: 0}
 
 	case *ast.Literal:
+		// The lexer hands string literals over as []rune; every other string in the
+		// interpreter is a Go string. Normalise here so that a string behaves the same
+		// whether it came from a literal or was computed.
+		if runes, ok := e.Value.([]rune); ok {
+			return string(runes), &ControlFlowSignal{Type: ControlFlowNone, LineNumber: 0}
+		}
 		return e.Value, &ControlFlowSignal{Type: ControlFlowNone, LineNumber: 0}
 
 	case *ast.Grouping:
